@@ -146,6 +146,10 @@ func (fv *FV) loadLoc(st *State, l *Loc) string {
 	}
 	f := fv.fams[l.fam]
 	t := fv.read(st, f, l.args...)
+	if kind, ok := fv.eng.nonNilFields[l.fam]; ok {
+		fv.assume(st, fv.nonNilTerm(t, l.ty))
+		fv.used("field invariant (" + kind + "): " + l.fam[2:] + " is never nil")
+	}
 	if strings.HasPrefix(l.fam, "SE|") && fv.eng.nonNilElems[l.fam[3:]] && !l.localArray {
 		fv.assume(st, sx("distinct", t, "0"))
 		fv.used("element type invariant: in-bounds elements of []" + l.fam[3:] + " are non-nil (checked at every store)")
@@ -166,6 +170,13 @@ func (fv *FV) storeLoc(st *State, l *Loc, val string) {
 	}
 	f := fv.fams[l.fam]
 	fv.frameCheck(st, f, l.args, "store")
+	if fv.eng.nonNilFields[l.fam] == "checked" {
+		pos := token.NoPos
+		if fv.curInstr != nil {
+			pos = fv.curInstr.Pos()
+		}
+		fv.oblige(st, "nonnil-field", fv.srcLabel(pos, "store"), fv.nonNilTerm(val, l.ty), pos, nil)
+	}
 	if strings.HasPrefix(l.fam, "SE|") && fv.eng.nonNilElems[l.fam[3:]] {
 		pos := token.NoPos
 		if fv.curInstr != nil {
@@ -404,6 +415,7 @@ func (fv *FV) execAlloc(st *State, x *ssa.Alloc) {
 		r := fv.alloc(st)
 		fv.setVal(x, r)
 		fv.zeroStruct(st, r, elem, tt)
+		fv.structInitCheck(st, x, elem, tt)
 		return
 	case *types.Array:
 		r := fv.alloc(st)
@@ -423,6 +435,45 @@ func (fv *FV) execAlloc(st *State, x *ssa.Alloc) {
 	f := fv.cellFam(elem)
 	fv.write(st, f, []string{r}, fv.u.zero(elem))
 	fv.ptrs[x] = &Loc{fam: f.Key, args: []string{r}, ty: elem}
+}
+
+func (fv *FV) nonNilTerm(t string, ty types.Type) string {
+	switch ty.Underlying().(type) {
+	case *types.Interface:
+		return not(eq(t, "any-nil"))
+	case *types.Slice:
+		return sx("distinct", sx("s-base", t), "0")
+	}
+	return sx("distinct", t, "0")
+}
+
+// structInitCheck: a struct with checked non-nil fields must have them assigned in the
+// block that allocates it (composite literal), otherwise the invariant could be broken
+// by the zero value.
+func (fv *FV) structInitCheck(st *State, x *ssa.Alloc, t types.Type, stt *types.Struct) {
+	// a whole-struct store right after the allocation (parameter copy, *p = v) initialises every field
+	for _, ins := range x.Block().Instrs {
+		if s, ok := ins.(*ssa.Store); ok && s.Addr == x {
+			return
+		}
+	}
+	for i := 0; i < stt.NumFields(); i++ {
+		key := fmt.Sprintf("H|%s|%s", typeKey(t), stt.Field(i).Name())
+		if fv.eng.nonNilFields[key] != "checked" {
+			continue
+		}
+		found := false
+		for _, ins := range x.Block().Instrs {
+			if s, ok := ins.(*ssa.Store); ok {
+				if fa, ok := s.Addr.(*ssa.FieldAddr); ok && fa.X == x && fa.Field == i {
+					found = true
+				}
+			}
+		}
+		if !found {
+			fv.obligeNoAssume(st, "nonnil-field", "allocation of "+shorten(t.String())+" without "+stt.Field(i).Name(), "false", x.Pos(), nil)
+		}
+	}
 }
 
 func (fv *FV) zeroStruct(st *State, r string, t types.Type, stt *types.Struct) {
@@ -858,12 +909,19 @@ func (fv *FV) execTypeAssert(st *State, x *ssa.TypeAssert) {
 		vc := fv.fresh("ta")
 		fv.emit(fmt.Sprintf("(define-fun %s () %s %s)", vc, u.sortOf(x.AssertedType), ite(okc, val, u.zero(x.AssertedType))))
 		fv.assume(st, fv.valid(vc, x.AssertedType, st.wm))
+		if fv.eng.nonNilBoxed[typeKey(x.AssertedType)] {
+			fv.assume(st, implies(okc, sx("distinct", vc, "0")))
+			fv.used("data assumption: interface values never hold a nil " + typeKey(x.AssertedType))
+		}
 		fv.tuples[x] = []string{vc, okc}
 		return
 	}
 	fv.oblige(st, "typeassert", fv.srcLabel(x.Pos(), x.X.Name()+".("+shorten(x.AssertedType.String())+")"), ok, x.Pos(), nil)
 	c := fv.bind(st, x, val)
 	fv.assume(st, fv.valid(c, x.AssertedType, st.wm))
+	if fv.eng.nonNilBoxed[typeKey(x.AssertedType)] {
+		fv.assume(st, sx("distinct", c, "0"))
+	}
 }
 
 func (fv *FV) execRange(st *State, x *ssa.Range) {
@@ -960,6 +1018,11 @@ func (fv *FV) execRunDefers(st *State) {
 
 // havocAll forgets every heap family (and bumps the watermark).
 func (fv *FV) havocAll(st *State, why string) {
+	{
+		nw := fv.freshConst("wm", "Int")
+		fv.assume(st, sx(">=", nw, st.wm))
+		st.wm = nw
+	}
 	for _, k := range fv.famOrder {
 		f := fv.fams[k]
 		if strings.HasPrefix(k, "GL|") {
@@ -967,8 +1030,5 @@ func (fv *FV) havocAll(st *State, why string) {
 		}
 		fv.havocFamily(st, f, "true")
 	}
-	nw := fv.freshConst("wm", "Int")
-	fv.assume(st, sx(">=", nw, st.wm))
-	st.wm = nw
 	fv.unmodelled["havoc-all: "+why] = true
 }
